@@ -63,8 +63,9 @@ theorem ensureWriter_ok {s : Store} {d : Disk} {A C : List Rec} (i : SInv s d A 
         rw [recsOf_nil_file]; exact di.presAlt w hw
     refine ⟨?_, dnew, dnew.synced, ?_, ?_, ?_, ?_, ?_, ?_, ?_, ?_⟩ <;> (try first | trivial | rfl | exact hr)
     refine ⟨i.ewf, i.rwf, ?_, i.pruned, i.view, i.pend, ?_, fun _ => rfl, fun _ => hr, ?_, ?_, ?_⟩
-    · show Covers s.idx (pairsOf (d.files ++ [{ num := s.nextWAL }]))
-      rw [pairsOf_nil_file]; exact i.cov
+    · intro _
+      show Covers s.idx (pairsOf (d.files ++ [{ num := s.nextWAL }]))
+      rw [pairsOf_nil_file]; exact i.cov hr
     · intro n hn
       simp only [Option.some.injEq] at hn
       exact ⟨d.files, { num := s.nextWAL }, rfl, hn⟩
@@ -73,10 +74,11 @@ theorem ensureWriter_ok {s : Store} {d : Disk} {A C : List Rec} (i : SInv s d A 
       rcases List.mem_append.mp hF with h | h
       · have := i.next F h; omega
       · simp only [List.mem_singleton] at h; subst h; simp
-    · refine ⟨i.seqNext.1, ?_⟩
+    · intro _
+      refine ⟨(i.seqNext hr).1, ?_⟩
       intro F hF q hq
       rcases List.mem_append.mp hF with h | h
-      · exact i.seqNext.2 F h q hq
+      · exact (i.seqNext hr).2 F h q hq
       · simp only [List.mem_singleton] at h; subst h; simp at hq
     · intro _ F hF
       rcases List.mem_append.mp hF with h | h
@@ -118,12 +120,13 @@ theorem commit_ok {s : Store} {d : Disk} {A C : List Rec} {n : Nat} (i : SInv s 
   have hclean := i.nogarb hr
   have hcpre : ∀ G ∈ pre, G.garbage = false := fun G hG => hclean G (by rw [hf]; exact List.mem_append_left _ hG)
   have hcall : ∀ G ∈ pre ++ [F], G.garbage = false := fun G hG => hclean G (by rw [hf]; exact hG)
-  obtain ⟨dfull, hfiles⟩ := di.full (B := s.pending) pre F s.nextSeq hf hcall i.pend hne i.seqNext.1
-    (fun q hq => i.seqNext.2 F (by rw [hf]; simp) q hq)
+  obtain ⟨dfull, hfiles⟩ := di.full (B := s.pending) pre F s.nextSeq hf hcall i.pend hne (i.seqNext hr).1
+    (fun q hq => (i.seqNext hr).2 F (by rw [hf]; simp) q hq)
   refine ⟨di.torn pre F hf hcpre hz, dfull, ?_, hz⟩
   obtain ⟨cp, cv⟩ := commit_idx (B := s.pending) (C := C) F.num i.ewf i.pruned i.view i.pend
   refine ⟨applyRecs_EWF _ _ _ i.ewf, applyRecs_RWF _ _ _ i.rwf, ?_, cp, cv, Equiv.rfl' _ _, ?_, fun _ => hz, fun _ => hr, ?_, ?_, ?_⟩
-  · have := i.cov.steps F.num s.pending
+  · intro _
+    have := (i.cov hr).steps F.num s.pending
     have hp : pairsOf (d.appendBatch F.num s.pending s.nextSeq).files = pairsOf d.files ++ s.pending.map (F.num, ·) := by
       rw [hfiles, hf, pairsOf_snoc, pairsOf_snoc]
       simp [recsOfFile, List.append_assoc]
@@ -139,18 +142,19 @@ theorem commit_ok {s : Store} {d : Disk} {A C : List Rec} {n : Nat} (i : SInv s 
     · simp only [List.mem_singleton] at h
       subst h
       exact i.next F (by rw [hf]; simp)
-  · have hlen : 0 < s.pending.length := List.length_pos_iff.mpr hne
+  · intro _
+    have hlen : 0 < s.pending.length := List.length_pos_iff.mpr hne
     refine ⟨by show 0 < s.nextSeq + s.pending.length; omega, ?_⟩
     intro G hG q hq
     show q < s.nextSeq + s.pending.length
     rw [hfiles] at hG
     rcases List.mem_append.mp hG with h | h
-    · have := i.seqNext.2 G (by rw [hf]; exact List.mem_append_left _ h) q hq; omega
+    · have := (i.seqNext hr).2 G (by rw [hf]; exact List.mem_append_left _ h) q hq; omega
     · simp only [List.mem_singleton] at h
       subst h
       simp only [List.mem_append, List.mem_singleton] at hq
       rcases hq with h1 | rfl
-      · have := i.seqNext.2 F (by rw [hf]; simp) q h1; omega
+      · have := (i.seqNext hr).2 F (by rw [hf]; simp) q h1; omega
       · omega
   · intro _ G hG
     rw [hfiles] at hG
@@ -173,6 +177,10 @@ theorem SInv.of_disk {s : Store} {d d' : Disk} {A C : List Rec} (i : SInv s d A 
 
 /-- the amortised cleanup: watermark, rotation, removal of the obsolete logs — with any of
 its failures injected -/
+theorem cleanup_limbo (s : Store) (d : Disk) (n : Nat) (ft : Fault) : (cleanup s d n ft).limbo = false := by
+  unfold cleanup
+  split <;> rfl
+
 theorem cleanup_ok {s : Store} {d : Disk} {A : List Rec} {n : Nat} (i : SInv s d A []) (di : DInv d A)
     (hw : s.writer = some n) (hz : d.zombies = []) (hr : s.repairRequired = false) (ft : Fault) :
     (∀ b ∈ (cleanup s d n ft).bases, b.2 = true ∧ DInv b.1 A) ∧ DInv (cleanup s d n ft).disk A ∧
@@ -225,7 +233,7 @@ theorem cleanup_ok {s : Store} {d : Disk} {A : List Rec} {n : Nat} (i : SInv s d
       obtain ⟨G', hG', hnum⟩ := List.mem_map.mp hc'
       have hlt := hsub G' hG'
       rw [hnum] at hlt
-      have := dead_is_low { s with writer := none } (pairsOf d.files) i.rwf i.cov G.num hlt r (mem_pairsOf hG hr')
+      have := dead_is_low { s with writer := none } (pairsOf d.files) i.rwf (i.cov hr) G.num hlt r (mem_pairsOf hG hr')
       rw [← hp]; exact this
     have dgc := dwm.gc (fun f => (rmFiles.map (fun f => f.num)).contains f.num) (by simp [Disk.wmVal, hp]) rfl hclean hlow
     refine ⟨?_, dgc, ?_, ?_, ?_, ?_⟩
@@ -244,12 +252,12 @@ theorem cleanup_ok {s : Store} {d : Disk} {A : List Rec} {n : Nat} (i : SInv s d
                    files := d.files.filter (fun f => !(rmFiles.map (fun f => f.num)).contains f.num),
                    zombies := d.files.filter (fun f => (rmFiles.map (fun f => f.num)).contains f.num) } A [] := by
         refine ⟨i.ewf, i.rwf, ?_, i.pruned, i.view, i.pend, ?_, ?_, ?_, ?_, ?_, ?_⟩
-        · exact i.cov.subset (pairsOf_mono (fun G hG => (List.mem_filter.mp hG).1))
+        · intro hq; exact (i.cov hq).subset (pairsOf_mono (fun G hG => (List.mem_filter.mp hG).1))
         · intro n' hn'; cases hn'
         · intro hn'; exact absurd rfl hn'
         · intro hn'; exact absurd rfl hn'
         · intro G hG; exact i.next G (List.mem_filter.mp hG).1
-        · exact ⟨i.seqNext.1, fun G hG q hq => i.seqNext.2 G (List.mem_filter.mp hG).1 q hq⟩
+        · intro hq'; exact ⟨(i.seqNext hq').1, fun G hG q hq => (i.seqNext hq').2 G (List.mem_filter.mp hG).1 q hq⟩
         · intro _ G hG; exact hclean G (List.mem_filter.mp hG).1
       split
       · exact base
@@ -269,7 +277,9 @@ open AMap
 invariant for the acknowledged history `A` and the calls `C` since. -/
 structure FlushOK (s : Store) (A C : List Rec) (r : OpRes) : Prop where
   bases : ∀ b ∈ r.bases, DInv b.1 (if b.2 = true then A ++ C else A)
-  dfin : DInv r.disk (if r.out.committed = true then A ++ C else A)
+  dfin : DInv r.disk (if (r.out.committed || r.limbo) = true then A ++ C else A)
+  /-- a batch left on disk by a flush that reported failure: the writer is blocked from then on -/
+  lim : r.limbo = true → r.out = .errNotCommitted ∧ r.st.repairRequired = true ∧ r.st.pending = s.pending ∧ s.pending ≠ []
   sfin : r.st.closed = false →
     SInv r.st r.disk (if r.out.committed = true then A ++ C else A) (if r.out.committed = true then [] else C)
   rem : ∀ F ∈ r.removed, Low (maxPrune (if r.out.committed = true then A ++ C else A)) (recsOfFile F)
@@ -293,7 +303,7 @@ theorem flush_ok {s : Store} {d : Disk} {A C : List Rec} (i : SInv s d A C) (di 
     have hnil : s.pending = [] := List.isEmpty_iff.mp hpe
     have e : Equiv (maxPrune A) [] C := by have := i.pend; rwa [hnil] at this
     obtain ⟨cp, cv⟩ := commit_idx (B := []) (C := C) 0 i.ewf i.pruned i.view e
-    refine ⟨?_, ?_, ?_, ?_, rfl⟩
+    refine ⟨?_, ?_, (by intro h; cases h), ?_, ?_, rfl⟩
     · intro b hb
       simp only [List.mem_singleton] at hb
       subst hb
@@ -307,7 +317,7 @@ theorem flush_ok {s : Store} {d : Disk} {A C : List Rec} (i : SInv s d A C) (di 
   · simp only [hpe, Bool.false_eq_true, ↓reduceIte]
     by_cases hrr : s.repairRequired = true
     · simp only [hrr, ↓reduceIte]
-      refine ⟨?_, ?_, ?_, ?_, rfl⟩
+      refine ⟨?_, ?_, (by intro h; cases h), ?_, ?_, rfl⟩
       · intro b hb
         simp only [List.mem_singleton] at hb
         subst hb
@@ -320,7 +330,7 @@ theorem flush_ok {s : Store} {d : Disk} {A C : List Rec} (i : SInv s d A C) (di 
       by_cases hcr : (decide (ft = Fault.create) && s.writer.isNone) = true
       · -- manager.Create fails: nothing happened
         simp only [hcr, ↓reduceIte]
-        refine ⟨?_, ?_, ?_, ?_, rfl⟩
+        refine ⟨?_, ?_, (by intro h; cases h), ?_, ?_, rfl⟩
         · intro b hb
           simp only [List.mem_singleton] at hb
           subst hb
@@ -346,7 +356,7 @@ theorem flush_ok {s : Store} {d : Disk} {A C : List Rec} (i : SInv s d A C) (di 
         · simpa using d1
       by_cases hap : ft = Fault.append
       · simp only [hap, ↓reduceIte]
-        refine ⟨?_, ?_, ?_, ?_, hcl1⟩
+        refine ⟨?_, ?_, (by intro h; cases h), ?_, ?_, hcl1⟩
         · intro b hb
           rcases List.mem_append.mp hb with h | h
           · exact bs1 b h
@@ -364,7 +374,7 @@ theorem flush_ok {s : Store} {d : Disk} {A C : List Rec} (i : SInv s d A C) (di 
       simp only [hap, ↓reduceIte]
       by_cases hnr : ft = Fault.appendNoRepair
       · simp only [hnr, ↓reduceIte]
-        refine ⟨?_, ?_, ?_, ?_, hcl1⟩
+        refine ⟨?_, ?_, (by intro h; cases h), ?_, ?_, hcl1⟩
         · intro b hb
           rcases List.mem_append.mp hb with h | h
           · exact bs1 b h
@@ -377,14 +387,8 @@ theorem flush_ok {s : Store} {d : Disk} {A C : List Rec} (i : SInv s d A C) (di 
           refine ⟨i1.ewf, i1.rwf, ?_, i1.pruned, i1.view, i1.pend, fun n' hn' => (by cases hn'),
             fun hn' => absurd rfl hn', fun hn' => absurd rfl hn', ?_, ?_, fun hh => (by cases hh)⟩
           rotate_right 1
-          · refine ⟨i1.seqNext.1, ?_⟩
-            intro F hF q hq
-            unfold Disk.setGarbage at hF
-            simp only [List.mem_map] at hF
-            obtain ⟨G, hG, rfl⟩ := hF
-            have := i1.seqNext.2 G hG
-            split at hq <;> exact this q hq
-          · rw [pairsOf_setGarbage]; exact i1.cov
+          · intro hq; cases hq
+          · intro hq; cases hq
           · intro F hF
             unfold Disk.setGarbage at hF
             simp only [List.mem_map] at hF
@@ -393,6 +397,25 @@ theorem flush_ok {s : Store} {d : Disk} {A C : List Rec} (i : SInv s d A C) (di 
             split <;> exact this
         · intro F hF; cases hF
       simp only [hnr, ↓reduceIte]
+      by_cases hfn : ft = Fault.appendFullNoRepair
+      · -- written and synced, reported as failed, and the repair that would cut it off fails too
+        simp only [hfn, ↓reduceIte]
+        refine ⟨?_, ?_, ?_, ?_, ?_, hcl1⟩
+        · intro b hb
+          rcases List.mem_append.mp hb with h | h
+          · exact bs1 b h
+          · simp only [List.mem_cons, List.not_mem_nil, or_false] at h
+            rcases h with rfl | rfl
+            · simpa using dtorn
+            · simpa using dfull
+        · simpa [Outcome.committed] using dfull
+        · intro _; exact ⟨rfl, rfl, hpend, hpne⟩
+        · intro _
+          simp only [Outcome.committed, Bool.false_eq_true, ↓reduceIte]
+          refine ⟨i1.ewf, i1.rwf, fun hq => (by cases hq), i1.pruned, i1.view, i1.pend, fun n' hn' => (by cases hn'),
+            fun hn' => absurd rfl hn', fun hn' => absurd rfl hn', s2inv.next, fun hq => (by cases hq), fun hh => (by cases hh)⟩
+        · intro F hF; cases hF
+      simp only [hfn, ↓reduceIte]
       -- the batch is appended, synced and indexed
       have bs2 : ∀ b ∈ [(d, false), (dNew, false), (d1', false)] ++ [(d1'.setGarbage n true, false), (d1'.appendBatch n s.pending s.nextSeq, true)],
           DInv b.1 (if b.2 = true then A ++ C else A) := by
@@ -405,17 +428,17 @@ theorem flush_ok {s : Store} {d : Disk} {A C : List Rec} (i : SInv s d A C) (di 
           · simpa using dfull
       by_cases hp0 : countPrunes s.pending = 0
       · simp only [hp0, ↓reduceIte]
-        exact ⟨bs2, (by simpa [Outcome.committed] using dfull), fun _ => (by simpa [Outcome.committed] using s2inv),
+        exact ⟨bs2, (by simpa [Outcome.committed] using dfull), (by intro h; cases h), fun _ => (by simpa [Outcome.committed] using s2inv),
           fun F hF => (by cases hF), hcl1⟩
       simp only [hp0, ↓reduceIte]
       by_cases hlt : s.sinceCleanup + countPrunes s.pending < cleanupInterval
       · simp only [hlt, ↓reduceIte]
-        exact ⟨bs2, (by simpa [Outcome.committed] using dfull),
+        exact ⟨bs2, (by simpa [Outcome.committed] using dfull), (by intro h; cases h),
           fun _ => (by simpa [Outcome.committed] using s2inv.of_since _), fun F hF => (by cases hF), hcl1⟩
       simp only [hlt, ↓reduceIte]
       by_cases hwm : ft = Fault.watermark
       · simp only [hwm, ↓reduceIte]
-        refine ⟨?_, ?_, ?_, ?_, hcl1⟩
+        refine ⟨?_, ?_, (by intro h; cases h), ?_, ?_, hcl1⟩
         · intro b hb
           rcases List.mem_append.mp hb with h | h
           · exact bs2 b h
@@ -430,13 +453,14 @@ theorem flush_ok {s : Store} {d : Disk} {A C : List Rec} (i : SInv s d A C) (di 
         · intro F hF; cases hF
       simp only [hwm, ↓reduceIte]
       obtain ⟨cb, cd, cs, cr, co, cc⟩ := cleanup_ok (s2inv.of_since (s.sinceCleanup + countPrunes s.pending)) dfull hw1 hzf hr1 ft
-      refine ⟨?_, ?_, ?_, ?_, ?_⟩
+      refine ⟨?_, ?_, ?_, ?_, ?_, ?_⟩
       · intro b hb
         rcases List.mem_append.mp hb with h | h
         · exact bs2 b h
         · obtain ⟨h1, h2⟩ := cb b h
           simpa [h1] using h2
       · simpa [co] using cd
+      · intro h; rw [show (cleanup _ _ n ft).limbo = false from cleanup_limbo _ _ _ _] at h; cases h
       · intro _; simpa [co] using cs
       · intro F hF; simpa [co] using cr F hF
       · rw [cc]; exact hcl1
